@@ -101,6 +101,29 @@ func main() {
 		}
 		pprof.StopCPUProfile()
 		os.Exit(code)
+	case "params":
+		// parameter names (receiver first) of every function under contract, as spelled in the current tree
+		P, err := LoadProgram(*repo)
+		if err != nil {
+			fmt.Fprintln(os.Stderr, err)
+			os.Exit(2)
+		}
+		for _, n := range P.Contracts.Order {
+			fn := P.Funcs[n]
+			if fn == nil || len(fn.Params) == 0 {
+				continue
+			}
+			var ns []string
+			for i, p := range fn.Params {
+				nm := p.Name()
+				if nm == "" || nm == "_" {
+					nm = fmt.Sprintf("p%d", i)
+				}
+				ns = append(ns, nm)
+			}
+			fmt.Printf("%s\t%s\n", n, strings.Join(ns, " "))
+		}
+		os.Exit(0)
 	case "deps":
 		os.Exit(runDeps(*repo, *prop, *timeout))
 	case "check":
